@@ -492,7 +492,7 @@ def _from_string(s) -> UDFNode:
 
 def _unquote(s: str) -> str:
     if s is not None:
-        return re.sub(r'^"(.*)"$', r'\1', s)
+        return re.sub(r'^"(.*)"$', r'\1', s, flags=re.DOTALL)
     return None
 
 
